@@ -35,9 +35,8 @@ Definition scan_int (s : bytes) : option (Z * bytes) :=
   let '(l1, _) := skip_space s 0 in
   let '(neg, l2) :=
     match l1 with
-    | 45 :: r => (true, r)
-    | 43 :: r => (false, r)
-    | _ => (false, l1)
+    | c :: r => if c =? 45 then (true, r) else if c =? 43 then (false, r) else (false, l1)
+    | [] => (false, l1)
     end in
   let ds := digit_run 10 l2 in
   match ds with
@@ -291,7 +290,7 @@ Definition atoi (s : bytes) : Z := match scan_int s with Some (v, _) => to_int v
    (with base 0 any leading digit starts a decimal, octal or hex subject sequence) *)
 Definition strtol0_noconv (s : bytes) : bool :=
   let '(l1, _) := skip_space s 0 in
-  let l2 := match l1 with 45 :: r => r | 43 :: r => r | _ => l1 end in
+  let l2 := match l1 with c :: r => if (c =? 45) || (c =? 43) then r else l1 | [] => l1 end in
   match l2 with c :: _ => negb (is_digit c) | [] => true end.
 
 Record parts := { p_type : N; p_size : Z; p_date : option bytes; p_name : bytes; p_link : option bytes }.
